@@ -24,7 +24,7 @@ def c2(ctx):
 
 def c5(ctx):
     # group_notes as the forward direction: the type filter precedes joining, nothing buffered is lost, a joined head keeps its fields
-    notes.grouping_order(ctx)
+    notes.grouping_order(ctx, join_guard=False)
     f = ctx.p.func("simfile.notes.group:group_notes.attach_tail")
     records.rebuild_site(ctx, f, "simfile.notes.group.NoteWithTail", 1, "head", {"tail_beat": "tail.beat"}, "joined head")
 
